@@ -100,7 +100,7 @@ func (s spec) name() string {
 var subset = []hx.Behaviour{hx.BOut1, hx.BErr, hx.BPanicStr, hx.BAckOK, hx.BOut0}
 
 func scenario(sp spec) *explore.Scenario {
-	return &explore.Scenario{Name: sp.name(), C: sp.C, DPOR: sp.DPOR, DPORSeconds: 20, Body: func() { body(sp) }}
+	return &explore.Scenario{Name: sp.name(), C: sp.C, DPOR: sp.DPOR, DPORSeconds: 20, Opts: vs.Options{LazyStart: sp.InFlight}, Body: func() { body(sp) }}
 }
 
 func body(sp spec) {
